@@ -97,9 +97,11 @@ pub fn rule_yaml(id: &str, lname: &str, rule: &R, utils: &BTreeMap<String, R>, f
 }
 
 pub fn load_rules(yamls: &[String]) -> Result<Vec<RuleConfig<SupportLang>>, String> {
-  let globals = GlobalRules::default();
   let mut out = vec![];
   for y in yamls {
+    // for every other document, global utilities carrying the ids of its local utilities are registered as
+    // well: a local utility shadows a global one of the same id, for matching and for the kind caches alike
+    let globals = decoy_globals(y).unwrap_or_default();
     let mut v = from_yaml_string::<SupportLang>(y, &globals).map_err(|e| format!("{e:#}"))?;
     if v.len() != 1 {
       return Err("not one document".into());
@@ -107,6 +109,68 @@ pub fn load_rules(yamls: &[String]) -> Result<Vec<RuleConfig<SupportLang>>, Stri
     out.push(v.remove(0));
   }
   Ok(out)
+}
+
+thread_local! {
+  static NO_DECOY: std::cell::Cell<bool> = const { std::cell::Cell::new(false) };
+}
+
+/// Run a check that loads its documents through `load_rules`.  If it reports violations, it is run once more
+/// without the decoy global utilities: a violation that disappears then is explained by a local utility
+/// shadowing a global one of the same id and gets the signature suffix `/local-shadows-global`.
+fn with_shadow_attribution(rep: &mut Report, recursive_util: bool, f: impl Fn(&mut Report)) {
+  let mut first = Report::new();
+  f(&mut first);
+  if !first.viol_sigs.is_empty() {
+    NO_DECOY.with(|c| c.set(true));
+    let mut second = Report::new();
+    f(&mut second);
+    NO_DECOY.with(|c| c.set(false));
+    let rename = |sig: &str| -> String {
+      if second.viol_sigs.contains_key(sig) {
+        sig.to_string()
+      } else if recursive_util {
+        // known: a self / forward reference is resolved while the local utility is not registered yet,
+        // so the kind caches of all/any are computed from the global utility of the same id
+        "C01/kind-cache/local-shadows-global/recursive-util".to_string()
+      } else {
+        format!("{sig}/local-shadows-global")
+      }
+    };
+    let mut renamed = Report::new();
+    for v in &first.violations {
+      renamed.violation(&rename(v["signature"].as_str().unwrap()), v["what"].as_str().unwrap(), v["replay"].clone());
+    }
+    for (sig, n) in &first.viol_sigs {
+      let e = renamed.viol_sigs.entry(rename(sig)).or_insert(0);
+      if *e < *n {
+        *e = *n;
+      }
+    }
+    first.violations = renamed.violations;
+    first.viol_sigs = renamed.viol_sigs;
+  }
+  crate::mon::c19::merge(rep, first);
+}
+
+fn decoy_globals(yaml: &str) -> Option<GlobalRules<SupportLang>> {
+  if NO_DECOY.with(|c| c.get()) || crate::rng::hash_str(yaml) % 2 == 0 {
+    return None;
+  }
+  let doc: Value = serde_json::from_str(yaml).ok()?;
+  let lname = doc["language"].as_str()?;
+  let lang: SupportLang = lname.parse().ok()?;
+  let names: Vec<&String> = doc["utils"].as_object()?.keys().collect();
+  if names.is_empty() {
+    return None;
+  }
+  let root_kind = lang.ast_grep("").root().kind().to_string();
+  let mut sers = vec![];
+  for n in names {
+    let g = serde_json::to_string(&json!({"id": n, "language": lname, "rule": {"kind": root_kind}})).ok()?;
+    sers.push(ast_grep_config::from_str(&g).ok()?);
+  }
+  ast_grep_config::DeserializeEnv::parse_global_utils(sers).ok()
 }
 
 /// CombinedScan of a rule set vs each rule alone
@@ -297,10 +361,16 @@ pub fn run_source(lang: SupportLang, fname: &str, src: &str, budget: (usize, usi
     let fix = if rng.chance(1, 2) { Some("FIXED") } else { None };
     let y = rule_yaml(&format!("r{i}"), &lname, &r, &utils, fix);
     match guarded(|| load_rules(&[y.clone()])) {
-      Ok(Ok(rules)) => {
+      Ok(Ok(_)) => {
         let replay = json!({"monitor":"c01","case":"rule","lang":lname,"file":fname,"source":src,"rules":[y]});
         rep.evaluations += 1;
-        let (n, _) = check_matcher(&rules[0].matcher, &root, &format!("rule {}", clip(&y, 160)), "rule", &replay, rep);
+        let n = std::cell::Cell::new(0usize);
+        with_shadow_attribution(rep, y.contains("\"UR\""), |r| {
+          if let Ok(rules) = load_rules(&[y.clone()]) {
+            n.set(check_matcher(&rules[0].matcher, &root, &format!("rule {}", clip(&y, 160)), "rule", &replay, r).0);
+          }
+        });
+        let n = n.get();
         if n > 0 {
           rep.nontrivial(hash_parts(&[fname, &y]));
         }
@@ -319,10 +389,18 @@ pub fn run_source(lang: SupportLang, fname: &str, src: &str, budget: (usize, usi
     let mut idx: Vec<usize> = (0..yamls.len()).collect();
     rng.shuffle(&mut idx);
     let set: Vec<String> = idx.into_iter().take(k).map(|i| yamls[i].clone()).collect();
-    let Ok(rules) = load_rules(&set) else { continue };
+    if load_rules(&set).is_err() {
+      continue;
+    }
     let replay = json!({"monitor":"c01","case":"combined","lang":lname,"file":fname,"source":src,"rules":set});
     rep.evaluations += 1;
-    let n = check_combined(&rules, lang, src, &replay, rep);
+    let n = std::cell::Cell::new(0usize);
+    with_shadow_attribution(rep, set.iter().any(|y| y.contains("\"UR\"")), |r| {
+      if let Ok(rules) = load_rules(&set) {
+        n.set(check_combined(&rules, lang, src, &replay, r));
+      }
+    });
+    let n = n.get();
     rep.count("combined_sets", 1);
     if n > 0 && k > 1 {
       rep.nontrivial(hash_parts(&[fname, "set", &set.join("|")]));
@@ -355,12 +433,14 @@ fn replay(r: &Value, rep: &mut Report) {
     }
     "rule" | "combined" => {
       let yamls: Vec<String> = r["rules"].as_array().unwrap().iter().map(|x| x.as_str().unwrap().to_string()).collect();
-      let Ok(rules) = load_rules(&yamls) else { return };
-      if r["case"] == "rule" {
-        check_matcher(&rules[0].matcher, &root, "rule", "rule", r, rep);
-      } else {
-        check_combined(&rules, lang, src, r, rep);
-      }
+      with_shadow_attribution(rep, yamls.iter().any(|y| y.contains("\"UR\"")), |out| {
+        let Ok(rules) = load_rules(&yamls) else { return };
+        if r["case"] == "rule" {
+          check_matcher(&rules[0].matcher, &root, "rule", "rule", r, out);
+        } else {
+          check_combined(&rules, lang, src, r, out);
+        }
+      });
     }
     _ => {}
   }
